@@ -16,6 +16,7 @@ import (
 	"github.com/ava-labs/hypersdk/examples/morpheusvm/storage"
 	"github.com/ava-labs/hypersdk/state"
 
+	avacodec "github.com/ava-labs/avalanchego/codec"
 	mconsts "github.com/ava-labs/hypersdk/examples/morpheusvm/consts"
 )
 
@@ -80,11 +81,13 @@ func UnmarshalTransfer(bytes []byte) (chain.Action, error) {
 	if bytes[0] != mconsts.TransferID {
 		return nil, fmt.Errorf("unexpected transfer typeID: %d != %d", bytes[0], mconsts.TransferID)
 	}
-	if err := codec.LinearCodec.UnmarshalFrom(
-		&wrappers.Packer{Bytes: bytes[1:]},
-		t,
-	); err != nil {
+	p := &wrappers.Packer{Bytes: bytes[1:]}
+	if err := codec.LinearCodec.UnmarshalFrom(p, t); err != nil {
 		return nil, err
+	}
+	// reject trailing bytes: an accepted encoding must re-encode to itself
+	if p.Offset != len(p.Bytes) {
+		return nil, avacodec.ErrExtraSpace
 	}
 	// Ensure that any parsed Transfer instance is valid
 	// and below MaxTransferSize
@@ -162,11 +165,12 @@ func (t *TransferResult) Bytes() []byte {
 
 func UnmarshalTransferResult(b []byte) (codec.Typed, error) {
 	t := &TransferResult{}
-	if err := codec.LinearCodec.UnmarshalFrom(
-		&wrappers.Packer{Bytes: b[1:]}, // XXX: first byte is guaranteed to be the typeID by the type parser
-		t,
-	); err != nil {
+	p := &wrappers.Packer{Bytes: b[1:]} // XXX: first byte is guaranteed to be the typeID by the type parser
+	if err := codec.LinearCodec.UnmarshalFrom(p, t); err != nil {
 		return nil, err
+	}
+	if p.Offset != len(p.Bytes) {
+		return nil, avacodec.ErrExtraSpace
 	}
 	return t, nil
 }
